@@ -180,6 +180,10 @@ class CallMixin:
             self.ctx.assume(z3.Implies(strict, inv == z3.If(neg, -n, n)))
             # a plain numeral (no sign) decodes to a non-negative integer
             self.ctx.assume(z3.Implies(z3.InRe(v.t, z3.Plus(z3.Range("0", "9"))), inv >= 0))
+            if self.spec_mode:
+                # in a specification int(s) is the pure function itself (meaningful on numerals; on other text it is some fixed,
+                # unspecified integer -- not a fresh one per occurrence, so that two occurrences of int(s) agree)
+                return SV(TInt, inv)
             return SV(TInt, z3.If(strict, inv, other))
         if v.ty is TReal:
             return SV(TInt, z3.ToInt(v.t))
